@@ -67,6 +67,27 @@ def run(chk, replay=None):
                 if d != t:
                     cases.append((g, "different-type", [(m, (gen.gen_val(rng, d) if m == n else w)) for m, w in base]))
                     break
+        # combinations: the rules hold jointly (a missing argument next to unrelated extra names, a retyped one next to extras, ...)
+        for _ in range(3):
+            m = list(base)
+            tags = []
+            if g.params and rng.random() < 0.5:
+                n = rng.choice(g.params)[0]
+                m = [p for p in m if p[0] != n]
+                tags.append("missing")
+            elif g.params and rng.random() < 0.5:
+                n, t, v = rng.choice(g.params)
+                for _ in range(10):
+                    d = pg.small_ty(1)
+                    if d != t:
+                        m = [(a, (gen.gen_val(rng, d) if a == n else w)) for a, w in m]
+                        tags.append("different-type")
+                        break
+            k = rng.choice([1, 2, 5])
+            m += [("Q%d%s" % (q, rng.choice("xyz")), gen.gen_val(rng, pg.small_ty(1))) for q in range(k)]
+            tags.append("extra")
+            rng.shuffle(m)
+            cases.append((g, "combo:" + "+".join(tags), m))
     il = ["(commit %s %s 0)" % (quote(g.text), corelib.bindings_sx(m)) for (g, _, m) in cases]
     ml = ["(macons %s %s)" % (corelib.bindings_sx(m), "(" + " ".join("(%s %s)" % (n, gen.ty_sx(t)) for (n, t, _) in g.params) + ")") for (g, _, m) in cases]
     ia = impl("core", il)
@@ -83,7 +104,7 @@ def run(chk, replay=None):
             chk.violation({"class": "argument-consistency", "what": "%s: instantiate %s, model consistent=%s" % (kind, x[:60], y)},
                           {"cmd": "core", "line": ln, "implementation": x, "model": y, "program": g.text, "arguments": corelib.bindings_sx(m),
                            "broken": "instantiate fails exactly when a reported parameter has no argument or one of a different type (C12_args_consistent_spec + correspondence)"})
-        if ok and kind in ("exact", "extra"):
+        if ok and kind in ("exact", "extra", "combo:extra"):
             subst_jobs.append((g, m, x))
     # (c) the instantiated program behaves like the literal-substituted program (and has the same CMR when every
     #     argument is a plain integer / bool, whose literal compiles to the same constant)
